@@ -32,4 +32,16 @@ def measurementsTerminal (fuel : Nat) (moments : List (List Node)) : Bool × Boo
   let flat := unrollCircuit fuel moments
   (allTerm FlatOp.qubits (fun o => o.mkey.isSome) flat [], anyTerm FlatOp.qubits (fun o => o.mkey.isSome) flat [])
 
+/-- how often a key is recorded by a flat list of operations (the `instances` axis of its record array) -/
+def instances {κ : Type} [BEq κ] (keyOf : α → Option κ) (k : κ) (l : List α) : Nat :=
+  (l.filter (fun o => keyOf o == some k)).length
+
+/-- the shape a sampler must report for every key of a circuit: (key, instances per repetition, measured qubits) in order
+of first appearance, read off the unrolled form -/
+def recordShapes (fuel : Nat) (moments : List (List Node)) : List (Key × Nat × Nat) :=
+  let flat := unrollCircuit fuel moments
+  let keys := (flat.filterMap (·.mkey)).eraseDups
+  keys.map (fun k => (k, instances FlatOp.mkey k flat,
+    ((flat.find? (fun o => o.mkey == some k)).map (·.qubits.length)).getD 0))
+
 end CirqVerif.C12
